@@ -1,5 +1,6 @@
 import Ampy.Lemmas.Msg
 import Ampy.Lemmas.Pipeline
+import Ampy.Lemmas.EndToEnd
 /-!
 # C01 — the METAR-like message is well-formed and obeys the ICAO layer selection
 
@@ -75,5 +76,41 @@ theorem C01_pipeline_grammar {α} [DecidableEq α] (K : MetK) (P : Prms α) (w :
   obtain ⟨hok, hn⟩ := C01_pipeline K P w layersDone data ids hK h hr ht0 t ht
   simp only [hn]
   exact C01_grammar P.msa flag t hok
+
+/-! ### The same clauses, stated directly about what `ampycloud.run` returns
+
+`Accepted` is the property's quantifier: hit heights in `[0, 100000)` ft, parameters inside their documented
+meaning, third-party answers of the documented shape. No hypothesis about tables or id columns is left. -/
+
+/-- Grammar, end to end: for every accepted input and every level, `metar_msg(which)` of the chunk `run`
+returns is `NCD`, `NSC`, or one to three well-formed groups. -/
+theorem C01_run_grammar {α} [DecidableEq α] (K : Kern) (P : PPrms α) (checked : List (Hit α))
+    (hA : Accepted K P checked) (c : Chunk α) (h : run K P checked = .ok c) (w : Which) :
+    ∃ msg, metarMsgOp P c w = .ok msg ∧
+      (msg = "NCD" ∨ msg = "NSC" ∨
+       ∃ gs : List String, 1 ≤ gs.length ∧ gs.length ≤ 3 ∧ (∀ g ∈ gs, IsGroup g) ∧ msg = " ".intercalate gs) := by
+  obtain ⟨t, _, hok, hm⟩ := run_msg K P checked hA c h w
+  exact ⟨_, hm, C01_grammar P.msa c.flag t hok⟩
+
+/-- Selection, end to end: when a group is reported at all, the message is exactly the codes of the reported
+rows of the chunk's table, at most three, in non-decreasing (coded) height, the `i`-th of at least `2i+1`
+oktas, none of zero okta, none at or above the MSA. -/
+theorem C01_run_selection {α} [DecidableEq α] (K : Kern) (P : PPrms α) (checked : List (Hit α))
+    (hA : Accepted K P checked) (c : Chunk α) (h : run K P checked = .ok c) (w : Which) :
+    ∃ t, tableOf c w = some t ∧
+      (reported P.msa t ≠ [] →
+        metarMsgOp P c w = .ok (" ".intercalate ((reported P.msa t).map (·.code))) ∧ (reported P.msa t).length ≤ 3) ∧
+      (reported P.msa t).Pairwise (fun a b => a.base ≤ b.base ∧ heightHundreds a.base ≤ heightHundreds b.base) ∧
+      (∀ i (hi : i < (reported P.msa t).length), ((reported P.msa t)[i]).okta ≥ 2 * (i : Int) + 1) ∧
+      (∀ r ∈ reported P.msa t, r.okta ≥ 1) ∧
+      (∀ m, P.msa = some m → ∀ r ∈ reported P.msa t, r.base < m) := by
+  obtain ⟨t, ht, hok, hm⟩ := run_msg K P checked hA c h w
+  refine ⟨t, ht, ?_, C01_order P.msa t hok, C01_135 P.msa t hok, C01_no_zero P.msa t hok, ?_⟩
+  · intro hr
+    obtain ⟨e, hl⟩ := C01_groups_are_rep P.msa c.flag t hok hr
+    exact ⟨by rw [hm, e], hl⟩
+  · intro m hmsa
+    rw [hmsa]
+    exact C01_below_msa m t
 
 end Ampy
